@@ -131,7 +131,7 @@ func expiryObserved(h *HHistory, obs []HObs) bool {
 
 func init() {
 	base := Profile{WAuthorize: 18, WRedeem: 24, WRefresh: 22, WRevoke: 8, WIntrospect: 4, WAdvance: 8, WSetClient: 2, WPassword: 5, WClientCreds: 1, WIntrospectEP: 2, WPush: 2, WAuthorizePAR: 2, WDeviceAuth: 3, WDecide: 3, WDevicePoll: 4,
-		PKCE: 10, Bad: 12, ShortLives: 25, MinOps: 8, MaxOps: 28, Smuggle: 10, Hybrid: 12, Implicit: 8, JWT: 15}
+		PKCE: 10, Bad: 12, ShortLives: 25, MinOps: 8, MaxOps: 28, Smuggle: 10, Hybrid: 12, Implicit: 8, JWT: 15, ClientLife: 30}
 	mk := func(id string, f func(p *Profile)) Profile { p := base; p.Name = id; f(&p); return p }
 	common := "seeded histories over authorize/redeem/refresh/revoke/introspect/advance/setclient with 2-4 clients, every access/refresh token probed after every step; distinct by operation list; non-trivial = "
 	regHist(&histProp{id: "C01", profile: mk("C01", func(p *Profile) {}), module: "Cases.Monitors", checkFn: "check_C01", quickN: 300, thoroN: 4000,
@@ -200,7 +200,7 @@ func init() {
 			return false
 		},
 		rule: common + "contains a request with scopes/audience that an endpoint refused as not covered (invalid_scope / invalid_request)"})
-	regHist(&histProp{id: "C07", profile: mk("C07", func(p *Profile) { p.ShortLives = 85; p.WAdvance = 26; p.WIntrospect = 8 }),
+	regHist(&histProp{id: "C07", profile: mk("C07", func(p *Profile) { p.ShortLives = 85; p.WAdvance = 26; p.WIntrospect = 8; p.ClientLife = 60; p.WSetClient = 5; p.WPassword = 8; p.WClientCreds = 4 }),
 		module: "Cases.Monitors", checkFn: "check_C07", quickN: 300, thoroN: 4000,
 		nontriv: expiryObserved,
 		rule:    common + "some token is active before a clock advance and inactive right after it (an expiry was crossed)"})
